@@ -94,13 +94,16 @@ def _refusal(ctx, f, cfg, target_ids, pred, excname, label, what, refuse_when=Tr
     n = t.ast
     refusing_true = (not neg) if refuse_when else neg       # truth value of the written test on which the request is refused
     side = 'T' if refusing_true else 'F'
-    ok = all(cfg.dominates(tid, t) for t in target_ids) and all(side_never_completes(cfg, i, side) for i in tid)
+    # the test lies on every path to the driver call - where an earlier refusal is collected in a flag (`refused = '...'` ...
+    # `if refused is not None: raise`), on every path that the flag lets through
+    dominates = all(cfg.dominates(tid, t) for t in target_ids) or not (set(target_ids) & reach_with_flags(cfg, [cfg.entry], avoid=tid))
+    ok = dominates and all(side_never_completes(cfg, i, side) for i in tid)
     goes_on = all(set(target_ids) & (cfg.reach([i], labels={'F' if side == 'T' else 'T'}, avoid=[i]) | set()) for i in tid)
     raises_it = all(any(excs.get(j) == excname for j in cfg.reach([b for b, lab in cfg.succ[i] if lab == side], exc=False) | {b for b, lab in cfg.succ[i] if lab == side})
                     for i in tid)
     ok = ok and raises_it
     ctx.check(ok and goes_on, construct, n, f'`if {src(n)}`: the refusing side always raises, the driver call lies on the other side',
-              f'`if {src(n)}`: ' + ('the test does not lie on every path to the driver call' if not all(cfg.dominates(tid, t) for t in target_ids) else
+              f'`if {src(n)}`: ' + ('the test does not lie on every path to the driver call' if not dominates else
                                          f'the side on which `{what}` holds does not always raise (or the driver call is on that side): the request is '
                                          f'carried out although it has to be refused with {excname}, and refused when it is legitimate'), f)
     return tid
@@ -147,7 +150,12 @@ def gates_in_order(ctx):
         nm = src(lookups[0].targets[0])
         for c in drv:
             fsrc = ' '.join(src(o) for o in origins(c.func, f.node)) if isinstance(c.func, ast.Name) else src(c.func)
-            ctx.check(nm in fsrc, f'{f.qualname}:driver addressed by looked-up name', c, f'write_ + {nm}',
+            fsrc += ' ' + src(resolved(c.func, f.node))        # through once-bound aliases (`pname = attrname`)
+            aliases = {nm}
+            for _ in range(3):
+                aliases |= {x.targets[0].id for x in body_walk(f.node) if isinstance(x, ast.Assign) and len(x.targets) == 1 and isinstance(x.targets[0], ast.Name)
+                            and isinstance(x.value, ast.Name) and x.value.id in aliases}
+            ctx.check(any(a in names_in(c.func) for a in aliases) or nm in fsrc, f'{f.qualname}:driver addressed by looked-up name', c, f'write_ + {nm}',
                       f'the driver method name is not built from the looked-up attribute name `{nm}`', f)
     chain.append(_refusal(ctx, f, cfg, drv_ids, lambda s: s.endswith(' is None') and 'module' not in s, 'NoSuchParameterError', 'parameter-exists refusal', '<pobj> is None'))
     chain.append(_refusal(ctx, f, cfg, drv_ids, lambda s: s.endswith('.constant is None'), 'ReadOnlyError', 'constant refusal', '<pobj>.constant is not None', refuse_when=False))
@@ -161,7 +169,7 @@ def gates_in_order(ctx):
     chain += [imp, val]
     # order of the chain
     chain = [c for c in chain if c]
-    inorder = all(all(cfg.dominates(a, x) for x in b) for a, b in zip(chain, chain[1:]))
+    inorder = all(all(cfg.dominates(a, x) or x not in reach_with_flags(cfg, [cfg.entry], avoid=a) for x in b) for a, b in zip(chain, chain[1:]))
     ctx.check(inorder, f'{f.qualname}:gate order', f.node, 'each gate dominates the next one',
               'the gates are not passed in the order exists -> lookup -> exists -> constant -> readonly -> import -> validate', f)
     # validate uses the cache value as previous
@@ -238,21 +246,36 @@ def _command_units(m):
 def _validated(rd, use_node, expr, depth=6):
     """every value `expr` may denote at use_node is the result of a validate(...) call, an empty container / a constant, or
     a tuple / list / dict built from such values (`args, kwds = (argument,), {}`)"""
+    def every(vals):
+        vals = list(vals)
+        return False if any(v is False for v in vals) else (None if any(v is None for v in vals) else True)
     if depth == 0:
         return False
     if isinstance(expr, ast.Starred):
         expr = expr.value
     if isinstance(expr, ast.Name):
         defs = rd.at(use_node, expr.id)
-        return bool(defs) and all(how == 'assign' and v is not None and _validated(rd, st, v, depth - 1) for v, st, how in defs)
+        if not defs:
+            return False
+        res = []
+        for v, st, how in defs:
+            if how == 'assign' and v is not None:
+                res.append(_validated(rd, st, v, depth - 1))
+            elif how == 'unpack' and isinstance(v, ast.Call) and isinstance(v.func, ast.Attribute) and dotted(v.func.value) == 'self':
+                res.append(None)        # what a helper method of the command hands back: not decided here
+            else:
+                res.append(False)
+        return every(res)
     if isinstance(expr, ast.IfExp):
-        return _validated(rd, use_node, expr.body, depth) and _validated(rd, use_node, expr.orelse, depth)
+        return every([_validated(rd, use_node, expr.body, depth), _validated(rd, use_node, expr.orelse, depth)])
     if isinstance(expr, (ast.Tuple, ast.List)):
-        return all(_validated(rd, use_node, e, depth) for e in expr.elts)
+        return every(_validated(rd, use_node, e, depth) for e in expr.elts)
     if isinstance(expr, ast.Dict):
-        return all(k is not None for k in expr.keys) and all(_validated(rd, use_node, v, depth) for v in expr.values)
+        return False if any(k is None for k in expr.keys) else every(_validated(rd, use_node, v, depth) for v in expr.values)
     if isinstance(expr, ast.Constant):
         return True
+    if isinstance(expr, ast.Call) and isinstance(expr.func, ast.Attribute) and dotted(expr.func.value) == 'self' and expr.func.attr.startswith('_'):
+        return None
     return is_method_call(expr, {'validate'}, rd, use_node)
 
 
@@ -287,8 +310,13 @@ def validated_value_is_used(ctx):
             direct = isinstance(c.func, ast.Name) and c.func.id == fname
             if not direct and isinstance(c.func, ast.Attribute) and dotted(c.func.value) == 'self' and m.method(roles.COMMAND, c.func.attr) is not None:
                 continue        # handed to a helper of the command: judged there
-            ok = all(_validated(rdg, c, a) for a in handed)
+            verdicts = [_validated(rdg, c, a) for a in handed]
+            ok = all(v is True for v in verdicts)
             o = [x for a in handed for x in rdg.origins_at(c, a.value if isinstance(a, ast.Starred) else a)]
+            if not ok and not any(v is False for v in verdicts):
+                ctx.undecided(f'{g.qualname}:command function gets the validated argument', c,
+                              'what is handed over comes out of a helper method of the command that these rules do not follow', g)
+                continue
             ctx.check(ok, f'{g.qualname}:command function gets the validated argument', c,
                       'argument = result of validate(...)',
                       f'the command function is called with {[src(x) for x in o]}: the merely imported value, not the '
@@ -326,8 +354,13 @@ def exactly_one_driver_call(ctx):
     # argument presence check (decided by C04.R2b's walk with the two conditions fixed)
     p = g.node.args.args[2].arg if len(g.node.args.args) > 2 else 'argument'
     refused = all(not (ids & reach_under(cfgg, g.node, {'self.argument': has, f'{p} is None': none}, exc=False)) for has, none in ((True, True), (False, False)))
-    ctx.check(refused, f'{g.qualname}:argument presence checked', g.node, 'missing and superfluous arguments are refused',
-              'a missing or superfluous command argument is not refused', g)
+    tested_here = any(t.kind == 'test' and not isinstance(t.ast, ast.stmt) and 'self.argument' in src(resolved(t.ast, g.node)) for t in cfgg.nodes)
+    delegated = [c for c in calls_in(g.node) if isinstance(c.func, ast.Attribute) and dotted(c.func.value) == 'self' and any(isinstance(a, ast.Name) and a.id == p for a in c.args)]
+    if not refused and not tested_here and delegated:
+        ctx.undecided(f'{g.qualname}:argument presence checked', delegated[0], f'the payload is handed to `{src(delegated[0].func)}`: decided there, not in do()', g)
+    else:
+        ctx.check(refused, f'{g.qualname}:argument presence checked', g.node, 'missing and superfluous arguments are refused',
+                  'a missing or superfluous command argument is not refused', g)
 
 
 @rule('C04.R4', min_instances=2)
@@ -510,6 +543,11 @@ def command_argument_presence_is_enforced(ctx):
         raise AnchorMissing('call of the bound command function not found in Command.do')
     mentions = [t for t in cfg.nodes if t.kind == 'test' and not isinstance(t.ast, ast.stmt) and 'self.argument' in src(resolved(t.ast, f.node))]
     if not mentions:
+        delegated = [c for c in calls_in(f.node) if isinstance(c.func, ast.Attribute) and dotted(c.func.value) == 'self' and
+                     any(isinstance(a, ast.Name) and a.id == p for a in c.args)]
+        if delegated:
+            raise AnchorMissing(f'the payload is handed to `{src(delegated[0].func)}` and Command.do itself does not test self.argument: the presence '
+                                'check is not decided in this form')
         raise AnchorMissing('test of self.argument not found in Command.do', violation=f'{f.qualname}:missing argument is refused')
     ids = {i for c in calls + escapes for i in cfg.node_of(c)}
     for has, none, key, good, bad in (
